@@ -109,6 +109,10 @@ func (g *ExecutionGraph) cycleDfs(t string, visited map[string]bool) error {
 		}
 	}
 
+	// t is no longer on the current DFS path; reaching it again through
+	// another branch is not a cycle
+	visited[t] = false
+
 	return nil
 }
 
